@@ -1,6 +1,8 @@
 //! Property registry: id -> units.
 pub mod regform;
 pub mod alu;
+pub mod memform;
+pub mod mov;
 
 use crate::hv::e1::Case;
 use crate::hv::known::Known;
@@ -8,6 +10,7 @@ use crate::hv::shard::{Prop, Tier, Unit};
 
 pub fn build(id: &str, tier: Tier, seed: u64, known: &[Known]) -> Option<Prop> {
     let mut p = match id {
+        "C01" => mov::c01(tier, seed),
         "C02" => alu::c02(tier, seed),
         "C03" => alu::c03(tier, seed),
         _ => return None,
